@@ -108,6 +108,14 @@ Proof.
   - (* BGen *) destruct W as [O W]. eapply Forall2_map2; [apply IHn; eauto|]. intros a b H.
     rewrite O in H |- *. simpl in H |- *. subst. reflexivity.
   - (* BDefer *) apply Forall2_shift; [apply equiv_refl | apply IHn; auto].
+  - (* BChainFirst *) destruct W as (O1 & O2 & W1 & W2).
+    eapply Forall2_map2; [apply Forall2_combine; [apply IHn1 | apply IHn2]; eauto|].
+    intros [a1 a2] [b1 b2] [H1 H2]. simpl in *. rewrite O1 in H1. rewrite O2 in H2. simpl in *.
+    subst. reflexivity.
+  - (* BReduceKeyedWm *) destruct W as (O1 & O2 & W1 & W2).
+    eapply Forall2_map2; [apply Forall2_combine; [apply IHn1 | apply IHn2]; eauto|].
+    intros [a1 a2] [b1 b2] [H1 H2]. simpl in *. rewrite O1 in H1. rewrite O2 in H2. simpl in *.
+    subst. reflexivity.
 Qed.
 
 (* the arrival oracle that changes nothing gives back the specification *)
